@@ -92,10 +92,9 @@ struct PadCaller<false> {
 
 // Runs the op list on reader |r|. |inner| (may be null) is the instrumented wrapped reader.
 template <typename R, bool kHasSkip, bool kBounded>
-static void RunReaderOps(R& r, DynReader* inner, const Json& ops, JsonOut& o) {
-  o.key("ops");
-  o.begin_arr();
-  for (auto& opj : ops.a) {
+static void RunReaderOpsRange(R& r, DynReader* inner, const Json& ops, size_t from, size_t to, JsonOut& o) {
+  for (size_t oi = from; oi < to && oi < ops.a.size(); oi++) {
+    const Json& opj = ops.a[oi];
     const std::string& op = opj.at("op").s;
     const uint64_t n = SizeOf(opj.at("n"));
     const int w = static_cast<int>(opj.at("w").num(1));
@@ -127,10 +126,44 @@ static void RunReaderOps(R& r, DynReader* inner, const Json& ops, JsonOut& o) {
     }
     o.end_obj();
   }
+}
+// thread-local: position in the sequence before which a bounded wrapper is copy-constructed and the copy used from
+// then on (passing a BoundedReader / BoundedWriter by value, returning it from a helper): the copy carries the limit AND
+// what has been consumed of it, so for the contract the copy is an identity step. (size_t)-1: never.
+thread_local size_t g_copy_at = static_cast<size_t>(-1);
+template <typename R, bool kBounded>
+struct CopyContinue {
+  template <typename F> static void run(R& r, size_t n, F f) { f(r, 0, n); }
+};
+template <typename R>
+struct CopyContinue<R, true> {
+  template <typename F> static void run(R& r, size_t n, F f) {
+    if (g_copy_at >= n) { f(r, 0, n); return; }
+    f(r, 0, g_copy_at);
+    R copy(r);
+    f(copy, g_copy_at, n);
+  }
+};
+template <typename R, bool kHasSkip, bool kBounded>
+static void RunReaderOps(R& r, DynReader* inner, const Json& ops, JsonOut& o) {
+  o.key("ops");
+  o.begin_arr();
+  CopyContinue<R, kBounded>::run(r, ops.a.size(), [&](R& x, size_t from, size_t to) {
+    RunReaderOpsRange<R, kHasSkip, kBounded>(x, inner, ops, from, to, o);
+  });
   o.end_arr();
 }
 
+struct CopyAtScope {
+  explicit CopyAtScope(const Json& cmd, JsonOut& o) {
+    g_copy_at = cmd.has("copyat") ? static_cast<size_t>(cmd.at("copyat").num(0)) : static_cast<size_t>(-1);
+    if (cmd.has("copyat")) o.kv_num("copyat", static_cast<long long>(g_copy_at));
+  }
+  ~CopyAtScope() { g_copy_at = static_cast<size_t>(-1); }
+};
+
 static void IoReader(const Json& cmd, JsonOut& o) {
+  CopyAtScope copy_scope(cmd, o);
   const std::string kind = cmd.at("kind").s;
   const bool bounded = cmd.at("bounded").truthy();
   const bool direct = cmd.at("direct").truthy();
@@ -226,11 +259,19 @@ struct WriterRunner {
   static long long size(const W& w, std::true_type) { return static_cast<long long>(w.size()); }
   static long long size(const W&, std::false_type) { return -1; }
   // |room| is the number of bytes the *unchecked* BufferWriter can still take (harness guard), or ~0
-  static void run(W& w, DynWriter* inner, const Json& ops, JsonOut& o, bool unchecked, uint64_t cap) {
+  static void run(W& w0, DynWriter* inner, const Json& ops, JsonOut& o, bool unchecked, uint64_t cap) {
     uint64_t written = 0;
     o.key("ops");
     o.begin_arr();
-    for (auto& opj : ops.a) {
+    CopyContinue<W, kBounded>::run(w0, ops.a.size(), [&](W& w, size_t from, size_t to) {
+      range(w, inner, ops, from, to, o, unchecked, cap, written);
+    });
+    o.end_arr();
+  }
+  static void range(W& w, DynWriter* inner, const Json& ops, size_t from, size_t to, JsonOut& o, bool unchecked, uint64_t cap,
+                    uint64_t& written) {
+    for (size_t oi = from; oi < to && oi < ops.a.size(); oi++) {
+      const Json& opj = ops.a[oi];
       const std::string& op = opj.at("op").s;
       const uint64_t n = SizeOf(opj.at("n"));
       const int width = static_cast<int>(opj.at("w").num(1));
@@ -276,7 +317,6 @@ struct WriterRunner {
       }
       o.end_obj();
     }
-    o.end_arr();
   }
 };
 
@@ -304,6 +344,7 @@ struct LimStream : std::ostream {
 thread_local size_t LimStream::cap_for_next = 0;
 
 static void IoWriter(const Json& cmd, JsonOut& o) {
+  CopyAtScope copy_scope(cmd, o);
   const std::string kind = cmd.at("kind").s;
   const bool bounded = cmd.at("bounded").truthy();
   const bool direct = cmd.at("direct").truthy();
